@@ -118,7 +118,7 @@ CLAIMED = {
          'recorded streams to coincide with the decoding at every item (emitted by the compiler, recovered by QModule.parse, seen by the CPU '
          'decoder, printed by disassemble(), shown by the listing); then the structural invariants are evaluated on the decoded code: jump / '
          'call / ON ERROR operands are instruction starts (or the two reserved codes), variable operands lie inside the frame declared by the '
-         'routine\'s FRAME instruction or inside the global area, literal indexes exist, a listing label denotes the instruction after it.',
+         'routine\'s FRAME instruction or inside the global area, literal indexes exist, a listing label denotes the instruction after it. Module.tla also computes, from the declarations the listing shows (.types, .globals, .routines), the storage each routine\'s parameters and locals and the global area need (records, nested records, static arrays with their headers, dynamic arrays as one reference cell) and requires every FRAME declaration and the global size to equal it.',
     note='Trusted: TLC, struct.pack re-encoding of decoded operand values in the harness, parsing of the disassembly and listing text. Frame declarations are checked against the operands used, not re-derived from the .routines listing.',
     technique='TLA+ decoding automaton run by TLC over real module bytes; event-by-event agreement of five recorded streams; structural invariants',
     design='6 C09'),
